@@ -246,7 +246,7 @@ class Run:
         saved_time = jp.time
         jp.time = types.SimpleNamespace(time=lambda: R.clock, sleep=lambda t: sched_point("sleep"))
         try:
-            if cfg["managed"]:
+            if cfg["managed"] is True:
                 with p:
                     self._calls(p, be, idle)
             else:
@@ -296,7 +296,11 @@ class Run:
             idle[0] = 0
             kind = None; ei = -1
             gen = None
+            per_call = cfg["managed"] == "per_call"
+            inside = False
             try:
+                if per_call:
+                    p.__enter__(); inside = True
                 r = p(It(callno))
                 if cfg["mode"] == "list":
                     for x in r:
@@ -311,6 +315,22 @@ class Run:
                             act = R.choose("cons", 3)          # 0 next, 1 close, 2 call again
                         elif cons == "close":
                             act = R.choose("cons", 2)
+                        elif cons == "leave" and inside:
+                            act = 3 if R.choose("cons", 2) == 1 else 0
+                        if act == 3:
+                            # leave the `with` block while the output generator is alive and unfinished:
+                            # the run is abandoned (aborted); calling the object again must still be rejected
+                            # as long as the generator lives, and the generator must end cleanly
+                            R.ev(ev="Close")
+                            inside = False; p.__exit__(None, None, None)
+                            try:
+                                r2 = p(iter(()))
+                                R.ev(ev="Overlap")
+                                for _ in r2: pass
+                            except RuntimeError:
+                                R.ev(ev="Rejected")
+                            gen.close()
+                            kind = "closed"; break
                         if act == 1:
                             R.ev(ev="Close")
                             gen.close(); kind = "closed"; break
@@ -340,6 +360,12 @@ class Run:
             except BaseException as e:
                 kind = "other:" + type(e).__name__
                 self.notes.append(repr(e)[:200])
+            if inside:
+                inside = False
+                try:
+                    p.__exit__(None, None, None)
+                except BaseException as e:
+                    kind = "other:exit:" + type(e).__name__
             R.ev(ev="End", kind=kind, i=ei)
             if kind == "hang":
                 break
